@@ -12,9 +12,10 @@ import (
 // hidx.from, exists) run inside goroutines of the server's merge layer that have NO recover: a panic there is a crash
 // of the whole data node process. Oracle-only: every handler is called on a real KVNode with adversarial argument
 // vectors; a panic (caught here by the runner) is a violation of class `panic`.
-//   open <eng>
-//   pop                                     a few keys of every type in table t (so that scans have something to return)
-//   m <hexarg0=command> <hexarg>…           → ok | err:<class> | nohandler
+//
+//	open <eng>
+//	pop                                     a few keys of every type in table t (so that scans have something to return)
+//	m <hexarg0=command> <hexarg>…           → ok | err:<class> | nohandler
 func init() { register(&Proto{Name: "mergeargs", Gen: genMergeArgs, New: newMergeArgs}) }
 
 var mergeCmds = []string{"scan", "revscan", "advscan", "advrevscan", "fullscan", "hidx.from", "exists", "SCAN", "HIDX.FROM"}
